@@ -25,16 +25,22 @@ MANIFEST = {
     "text": "Lean theorems over the model of the signer (signing_solver: reuse of existing signatures, max_sigs, reverse key order, low-S, DER + hash type, "
             "placeholder padding, ordering; the scriptSig/witness written for P2PK, P2PKH, bare/P2SH/P2WSH/P2SH-P2WSH multisig, P2WPKH, P2SH-P2WPKH; "
             "Solver.sign's frame: input subset, skipping valid inputs, fork-id forcing; Keychain lookups): emitted signatures are strict DER, low-S and carry "
-            "the requested hash type; the consensus specification accepts the model's solutions under the full standard flag set given ECDSA-verify of the right "
-            "digest; partial multisig signing is order independent; nothing but the script and witness of the chosen inputs changes. The symbolic-execution "
+            "the requested hash type; the consensus specification accepts the model's solutions under the full standard flag set with CheckSig = ECDSA-verify "
+            "(C01) of the C04 digest — single-key templates and m-of-n multisig for every 1 <= m <= n <= 20 in all four wrappings (counts 17..20 as the "
+            "one-byte pushes 01 11..01 14 pycoin emits and MINIMALDATA requires; redeem scripts pushed direct / PUSHDATA1 / PUSHDATA2; under P2SH the 520-byte "
+            "limit admits exactly n <= 15 compressed or n <= 7 uncompressed keys); any sequence of signing passes on the model leaves min(m, distinct listed "
+            "keys supplied) signatures and placeholders otherwise, is accepted exactly when m distinct listed keys were supplied, whatever the order of the "
+            "passes, and a wrong secret leaves the input rejected; nothing but the script and witness of the chosen inputs changes. The symbolic-execution "
             "machinery of the solver is tied to the model by byte-for-byte equality of what tx.sign writes (RFC 6979 makes signatures deterministic).",
     "note": "The signature hash is computed inside the model by C04's Model/Sighash.lean (the digests pycoin computes are sent along and cross-checked); DER and SEC "
             "encodings are C10's models. Supplied by the harness from pycoin: whether an input already validates under the default flags (C03). ECDSA "
-            "unforgeability (the placeholder signature does not verify) is an explicit hypothesis.",
+            "unforgeability appears as explicit hypotheses of the _partial theorems: the placeholder signature verifies for no key; a signature made for one "
+            "listed key (or with a wrong secret) does not verify for another listed key. Legacy end-to-end theorems carry the side condition that "
+            "FindAndDelete of the pushed signatures leaves the script code unchanged (signatures do not occur inside the puzzle script).",
     "technique": "Lean 4 proof over an executable model + differential correspondence model vs implementation (exact bytes) + validation oracles on the implementation",
 }
 RULE = ("ops c05_sign_tx (one or several signing passes over a transaction mixing the standard templates), c05_sign_solver, c05_der, c05_lax, c05_sec, "
-        "c05_keychain; boundary corpus (every template x key form x hash type x coin, subsets incl. the empty one, m-of-n at the size limits) + seeded random; "
+        "c05_keychain, c05_who_signed (public_pairs_signed on the transactions the signing ops leave); boundary corpus (every template x key form x hash type x coin, subsets incl. the empty one, m-of-n at the size limits) + seeded random; "
         "distinct = distinct op line; trivial = ops that sign nothing")
 ASSUMPTIONS = ["the signature hash is C04's model (Model/Sighash.lean); the driver answers DigestMismatch when it differs from what pycoin computed",
                "whether an input is already valid under the default flags is taken from pycoin's validator (tied to consensus by C03)",
@@ -354,6 +360,14 @@ def impl(op: str) -> str:
             return "ok " + dump_tx(tx)
         if k == "c05_keychain":
             return _keychain(a[1])
+        if k == "c05_who_signed":
+            tx = build(a[1], a[2], a[3])
+            ws = NET(a[1]).who_signed
+            out = []
+            for i in range(len(tx.txs_in)):
+                r = ws.public_pairs_signed(tx, i)
+                out.append(";".join("%d.%d.%d" % (pp[0], pp[1], t) for pp, _sig, t in r) or "~")
+            return "ok " + ("|".join(out) or "-")
         if k == "c05_fastcheck":
             # the driver evaluates the model with a fast secp256k1 instance; this op ties that instance and the C01 model instance to pycoin
             d, z = int(a[1]), int(a[2])
@@ -486,6 +500,11 @@ def oracle_sign_tx(op):
     problems = []
     flags = std_flags(o.coin)
     prev_valid = [tx0.is_solution_ok(i) for i in range(n_in)]
+    fresh_in = [not t.script and not t.witness for t in tx0.txs_in]
+    pair_of = {}
+    for e, g in zip(o.entries, good):
+        if g:
+            pair_of[e[0]] = (e[2], e[3])
     initial_items = [set(sig_items(t, infos[i])) if infos[i] else set() for i, t in enumerate(fields_of(tx0)[2])]
 
     def observe(k, before, tx):
@@ -519,6 +538,19 @@ def oracle_sign_tx(op):
                 problems.append("pass %d: input %d has its %d key(s) but does not validate under the standard flags" % (k, i, m))
             if not expect and (ok_default or ok_std):
                 problems.append("pass %d: input %d reported valid with %d of %d signatures" % (k, i, len(signed[i]), m))
+            # who_signed: on an input that started unsigned, the signers reported are exactly the keys that signed
+            if fresh_in[i]:
+                try:
+                    got = sorted((pp[0], pp[1]) for pp, _sg, _t in o.net.who_signed.public_pairs_signed(tx, i))
+                    n_addr = len(o.net.who_signed.who_signed_tx(tx, i))
+                except Exception as e:  # noqa: BLE001
+                    problems.append("pass %d: who_signed raised %s on input %d" % (k, type(e).__name__, i))
+                    got, n_addr = None, None
+                if got is not None:
+                    exp = sorted(pair_of[key if info["base"][0] == "p2pkh" else hash160(key)] for key in signed[i])
+                    if got != exp or n_addr != len(exp):
+                        problems.append("pass %d: who_signed reports %d signer(s) for input %d, %d of its keys have signed%s"
+                                        % (k, len(got), i, len(exp), " (fork-id coin)" if fork else ""))
             # every signature present: canonical; new ones carry the requested hash type
             old = set(sig_items(b, info)) | initial_items[i]
             for s in sig_items(a, info):
@@ -971,6 +1003,13 @@ def gen_keychain(ctx, emit, n):
 def gen(ctx, emit):
     rng = ctx.rng
     pool = KeyPool(rng)
+    sign_ops = []
+    emit_all = emit
+
+    def emit(op):  # noqa: F811  (every c05_sign_tx op is remembered: who_signed is asked about a sample of their results)
+        emit_all(op)
+        if op.startswith("c05_sign_tx "):
+            sign_ops.append(op)
 
     def fresh(n):
         return [rng.randrange(1, N_ORDER) for _ in range(n)]
@@ -1032,12 +1071,18 @@ def gen(ctx, emit):
         if kind.endswith("ms"):
             emit(scenario_op(ctx, sc, "dict", passes=[[ds[1]]]))
     # m-of-n across the atom-numbering boundary (x_9 / x_10) and at the size limits
-    big = [("ms", 10, 10), ("p2sh-ms", 9, 9), ("p2wsh-ms", 9, 10), ("ms", 11, 12), ("p2sh-ms", 15, 15), ("p2wsh-ms", 20, 20)]
+    # (counts above 16 are written as one-byte pushes 01 11 .. 01 14; under P2SH 15 compressed / 7 uncompressed keys fill the 520 bytes)
+    big = [("ms", 10, 10), ("p2sh-ms", 9, 9), ("p2wsh-ms", 9, 10), ("ms", 11, 12), ("p2sh-ms", 15, 15), ("p2wsh-ms", 20, 20),
+           ("ms", 17, 17), ("p2sh-p2wsh-ms", 16, 17), ("p2sh-ms-u", 7, 7)]
     if ctx.thorough:
-        big += [("ms", 20, 20), ("p2sh-p2wsh-ms", 16, 20), ("p2sh-ms", 1, 15), ("p2wsh-ms", 1, 20), ("ms", 16, 17), ("p2wsh-ms", 17, 17)]
+        big += [("ms", 20, 20), ("p2sh-p2wsh-ms", 16, 20), ("p2sh-ms", 1, 15), ("p2wsh-ms", 1, 20), ("ms", 16, 17), ("p2wsh-ms", 17, 17),
+                ("ms", 1, 18), ("p2sh-p2wsh-ms", 20, 20), ("p2wsh-ms", 18, 19), ("p2sh-ms-u", 1, 7), ("ms-u", 20, 20)]
     for kind, m, n in big:
         sc = Scenario(ctx, rng.choice(["btc", "bch"]), pool)
-        sc.add(kind, fresh(n), m)
+        if kind.endswith("-u"):
+            sc.add(kind[:-2], fresh(n), m, compressed=False)
+        else:
+            sc.add(kind, fresh(n), m)
         emit(scenario_op(ctx, sc, "dict"))
 
     # --- multisig one key at a time, every order for n <= 4 (sampled in quick), sampled beyond
@@ -1098,3 +1143,10 @@ def gen(ctx, emit):
             k = rng.randint(1, 3)
             passes = [sh[i::k] for i in range(k)]
         emit(scenario_op(ctx, sc, rng.choice(["dict", "dict", "wif"]), ht=ht, subset=subset, passes=passes))
+
+    # --- who_signed on the transactions the signing ops leave (unsigned, partially signed with placeholders, complete)
+    for op in rng.sample(sign_ops, min(len(sign_ops), ctx.n(70, 900))):
+        out = impl(op)
+        if out.startswith("ok "):
+            a = op.split(" ")
+            emit_all("c05_who_signed %s %s %s" % (a[1], out[3:], a[4]))
